@@ -860,4 +860,60 @@ theorem inplace_sparse_counterexample :
   have h0 := h 0 (by decide)
   norm_num [unnormInPlaceSp, unnormG, exM, exB, ofList, ofList2, sumTo] at h0
 
+/-! ### the list-state versions run by the driver are the in-place models above -/
+
+theorem unnormInPlaceL_length (m : POMDP) (a o : Nat) : ∀ n st, (unnormInPlaceL m a o n st).length = st.length
+  | 0, _ => rfl
+  | n+1, st => by simp [unnormInPlaceL, unnormInPlaceL_length m a o n st]
+
+theorem unnormInPlaceL_eq (m : POMDP) (a o : Nat) (st : List Rat) :
+    ∀ n, n ≤ st.length → ∀ k, (unnormInPlaceL m a o n st).getD k 0 = unnormInPlaceG m (ofList st) a o n k
+  | 0, _, k => rfl
+  | n+1, hn, k => by
+    have ih := unnormInPlaceL_eq m a o st n (by omega)
+    have hlen := unnormInPlaceL_length m a o n st
+    simp only [unnormInPlaceL, unnormInPlaceG]
+    have hsum : sumTo m.S (fun s => m.T s a n * (unnormInPlaceL m a o n st).getD s 0)
+        = sumTo m.S (fun s => m.T s a n * unnormInPlaceG m (ofList st) a o n s) := by
+      apply sumTo_congr; intro s _; rw [ih s]
+    rw [hsum]
+    by_cases hk : k = n
+    · subst hk
+      simp only [if_true]
+      rw [List.getD_eq_getElem?_getD, List.getElem?_set]
+      have : k < (unnormInPlaceL m a o k st).length := by omega
+      simp [this]
+    · simp only [hk, if_false]
+      rw [List.getD_eq_getElem?_getD, List.getElem?_set]
+      have : ¬ n = k := fun h => hk h.symm
+      simp only [this, if_false]
+      rw [← List.getD_eq_getElem?_getD]
+      exact ih k
+
+theorem predictInPlaceL_length (m : POMDP) (a : Nat) : ∀ n st, (predictInPlaceL m a n st).length = st.length
+  | 0, _ => rfl
+  | n+1, st => by simp [predictInPlaceL, predictInPlaceL_length m a n st]
+
+theorem predictInPlaceL_eq (m : POMDP) (a : Nat) (st : List Rat) :
+    ∀ n, n ≤ st.length → ∀ k, (predictInPlaceL m a n st).getD k 0 = predictInPlaceG m (ofList st) a n k
+  | 0, _, k => rfl
+  | n+1, hn, k => by
+    have ih := predictInPlaceL_eq m a st n (by omega)
+    have hlen := predictInPlaceL_length m a n st
+    simp only [predictInPlaceL, predictInPlaceG]
+    have hv : (fun i => (predictInPlaceL m a n st).getD i 0) = predictInPlaceG m (ofList st) a n := funext ih
+    rw [hv]
+    by_cases hk : k = n
+    · subst hk
+      simp only [if_true]
+      rw [List.getD_eq_getElem?_getD, List.getElem?_set]
+      have : k < (predictInPlaceL m a k st).length := by omega
+      simp [this]
+    · simp only [hk, if_false]
+      rw [List.getD_eq_getElem?_getD, List.getElem?_set]
+      have : ¬ n = k := fun h => hk h.symm
+      simp only [this, if_false]
+      rw [← List.getD_eq_getElem?_getD]
+      exact ih k
+
 end AITB.Belief
